@@ -13,7 +13,7 @@ use std::time::{Duration, Instant};
 
 const TIMEOUT_MS: u64 = 700;
 const MEM_LIMIT: usize = 64 << 20;
-const KINDS: [char; 7] = ['A', 'P', 'S', 'M', 'X', 'B', 'L'];
+const KINDS: [char; 9] = ['A', 'P', 'S', 'M', 'X', 'B', 'L', 'U', 'H'];
 const WORK_MS: u64 = 200;
 const IDLE_KINDS: [char; 4] = ['A', 'W', 'G', 'g'];
 const MARKER: &str = "c18-deliberate-panic";
@@ -22,6 +22,7 @@ const MARKER: &str = "c18-deliberate-panic";
 pub enum Req {
     Add(i64, i64),
     Panic(i64),
+    LongPanic(i64, usize),
     Sleep(u64, i64),
     Alloc(usize, i64),
     Exit(i32, i64),
@@ -64,6 +65,10 @@ impl Service for TestService {
         match request {
             Req::Add(a, b) => Res { value: a + b, pid, len: 0, sum: 0 },
             Req::Panic(tag) => panic!("{} {}", MARKER, tag),
+            // a long report in a multi-byte script: any byte offset is likely to fall inside a character
+            // four-byte characters after `pad` one-byte ones: whatever byte offset a consumer cuts at,
+            // three of the four paddings put it inside a character
+            Req::LongPanic(tag, pad) => panic!("{} {} {}{}", MARKER, tag, "x".repeat(pad), "\u{1d4b3}".repeat(3000)),
             Req::Sleep(ms, tag) => {
                 std::thread::sleep(Duration::from_millis(ms));
                 Res { value: tag, pid, len: 0, sum: 0 }
@@ -97,6 +102,10 @@ pub fn seq_main(kinds: &str, gap_ms: u64) -> ! {
             let req = match k {
                 'A' => Req::Add(tag, 7 * tag),
                 'P' => Req::Panic(tag),
+                'U' => Req::LongPanic(tag, 0),
+                '1' | '2' | '3' => Req::LongPanic(tag, *k as usize - '0' as usize),
+                // larger than the pipe capacity AND the child's memory limit: the child dies reading it
+                'H' => Req::Big(vec![7u8; MEM_LIMIT + (16 << 20)], tag),
                 'S' => Req::Sleep(TIMEOUT_MS * 10, tag),
                 // overruns the limit only slightly: its late reply must never reach a later request
                 'L' => Req::Sleep(TIMEOUT_MS + TIMEOUT_MS / 2, tag),
@@ -150,15 +159,19 @@ impl C18 {
         let lens: Vec<u64> = if tier == "thorough" { vec![1, 2, 3, 4] } else { vec![1, 2] };
         let mut fams = Fams::default();
         for l in &lens {
-            fams.add(&format!("fault sequences of length {} (+2 trailing normal requests) x gap", l), vec![7u64.pow(*l as u32), 2]);
+            fams.add(&format!("fault sequences of length {} (+2 trailing normal requests) x gap", l), vec![(KINDS.len() as u64).pow(*l as u32), 2]);
         }
         // idle time between legal requests must not count against anybody's time limit
         let idle_len = if tier == "thorough" { 3 } else { 2 };
         fams.add(&format!("idle gaps: sequences of length {} over normal / slow-but-legal / long idle / short idle (+ a slow and a normal request)", idle_len), vec![4u64.pow(idle_len)]);
+        fams.add("long panic reports in a four-byte script at all four byte alignments (+ two normal requests)", vec![4]);
         C18 { fams, lens }
     }
     fn seq(&self, idx: u64) -> (String, u64) {
         let (f, d) = self.fams.locate(idx);
+        if f == self.lens.len() + 1 {
+            return (format!("{}AA", ['U', '1', '2', '3'][d[0] as usize]), 0);
+        }
         if f == self.lens.len() {
             let l = if self.lens.len() > 2 { 3 } else { 2 };
             let digits = decode(d[0], &vec![4; l]);
@@ -167,7 +180,7 @@ impl C18 {
             return (s, 0);
         }
         let l = self.lens[f] as usize;
-        let digits = decode(d[0], &vec![7; l]);
+        let digits = decode(d[0], &vec![KINDS.len() as u64; l]);
         let mut s: String = digits.iter().map(|x| KINDS[*x as usize]).collect();
         s.push_str("AA");
         (s, if d[1] == 0 { 0 } else { 400 })
@@ -326,7 +339,7 @@ fn judge(kinds: &str, lines: &[Value]) -> Vec<(String, String)> {
                 }
                 current_pid = Some(pid);
             }
-            'P' => {
+            'P' | 'U' | '1' | '2' | '3' => {
                 if !(res == "err" && err == "Panic" && l["message"].as_str().unwrap_or("").contains(MARKER) && l["message"].as_str().unwrap_or("").contains(&tag.to_string())) {
                     bad.push(("panicking request is not reported as its own panic".to_string(), ctx("expected Error::Panic with the marker")));
                 }
@@ -342,7 +355,7 @@ fn judge(kinds: &str, lines: &[Value]) -> Vec<(String, String)> {
             }
             _ => {
                 if !(res == "err" && err == "Crashed") {
-                    bad.push((format!("{} is not reported as a crash", if k == 'M' { "memory exhaustion" } else { "child exit" }), ctx("expected Error::Crashed")));
+                    bad.push((format!("{} is not reported as a crash", match k { 'M' => "memory exhaustion", 'H' => "a request larger than the child's memory limit", _ => "child exit" }), ctx("expected Error::Crashed")));
                 }
                 last_fault_pid = current_pid;
                 need_new_pid = current_pid.is_some();
@@ -374,6 +387,8 @@ fn idle_class(prefix: &[char]) -> &'static str {
 fn prefix_class(prefix: &[char]) -> String {
     match prefix.iter().rev().find(|c| **c != 'A' && **c != 'B') {
         Some('P') => "a panic".into(),
+        Some('U') | Some('1') | Some('2') | Some('3') => "a panic with a long non-ASCII report".into(),
+        Some('H') => "a request larger than the child's memory limit".into(),
         Some('S') => "a timeout".into(),
         Some('L') => "a slight overrun".into(),
         Some('M') => "memory exhaustion".into(),
@@ -387,13 +402,13 @@ impl Space for C18 {
         Meta {
             id: "C18",
             level: "fault_enumeration",
-            rule: format!("every sequence of length <= {} over the seven request kinds {{normal, panic, overrun of the time limit by 10x, overrun by 1.5x (its reply arrives late), allocation beyond the memory limit, child exit, 2 MiB payload}}, each followed by two normal requests, x gap in {{0 ms, 400 ms}} after each fault; plus every sequence over {{normal, slow-but-legal (200 ms), idle 1.5x the limit, idle 0.5x the limit}} followed by a slow and a normal request (idle time between requests must not count against the limit); run against the real rink_sandbox::Sandbox with real child processes (one parent process per sequence). Oracle: every execute returns within the time limit + 2.5 s; reply i belongs to request i (unique operands / payload checksum); normal and large requests succeed whatever preceded them; panic -> Error::Panic with the marker, overrun -> Timeout, memory/exit -> Crashed; after a fault the next reply comes from another process and the failed child is gone; no process of the group outlives the parent. Non-trivial = the sequence contains a fault followed by a request (all do); distinct by (sequence, gap)", self.lens.last().unwrap()),
+            rule: format!("every sequence of length <= {} over the nine request kinds {{normal, panic, overrun of the time limit by 10x, overrun by 1.5x (its reply arrives late), allocation beyond the memory limit, child exit, 2 MiB payload, panic with a 12 kB report in a four-byte script (also at each of the four byte alignments), request payload larger than the child's memory limit}}, each followed by two normal requests, x gap in {{0 ms, 400 ms}} after each fault; plus every sequence over {{normal, slow-but-legal (200 ms), idle 1.5x the limit, idle 0.5x the limit}} followed by a slow and a normal request (idle time between requests must not count against the limit); run against the real rink_sandbox::Sandbox with real child processes (one parent process per sequence). Oracle: every execute returns within the time limit + 2.5 s; reply i belongs to request i (unique operands / payload checksum); normal and large requests succeed whatever preceded them; panic -> Error::Panic with the marker, overrun -> Timeout, memory/exit -> Crashed; after a fault the next reply comes from another process and the failed child is gone; no process of the group outlives the parent. Non-trivial = the sequence contains a fault followed by a request (all do); distinct by (sequence, gap)", self.lens.last().unwrap()),
             assumptions: vec![
                 format!("service time limit {} ms (hundreds of times a normal round trip); a sequence whose only anomaly is timing is re-run once alone before being believed", TIMEOUT_MS),
                 "child memory limit 64 MiB, RUST_BACKTRACE=0".into(),
             ],
             exhaustive: true,
-            extra: json!({"families": self.fams.summary(), "request_kinds": {"A": "normal add", "P": "panic", "S": "sleep 10x the limit", "L": "sleep 1.5x the limit (late reply)", "M": "allocate 4x the limit", "X": "exit(3)", "B": "2 MiB payload echo", "W": "sleep 200 ms (legal)", "G": "no request: idle 1.5x the limit", "g": "no request: idle 0.5x the limit"}}),
+            extra: json!({"families": self.fams.summary(), "request_kinds": {"A": "normal add", "P": "panic", "S": "sleep 10x the limit", "L": "sleep 1.5x the limit (late reply)", "M": "allocate 4x the limit", "X": "exit(3)", "B": "2 MiB payload echo", "U": "panic with a long non-ASCII report", "1/2/3": "the same with 1/2/3 bytes of padding", "H": "80 MiB payload (beyond the child's 64 MiB)", "W": "sleep 200 ms (legal)", "G": "no request: idle 1.5x the limit", "g": "no request: idle 0.5x the limit"}}),
         }
     }
     fn len(&self) -> u64 {
